@@ -266,3 +266,40 @@ def x3_sites(fn):
             ok = (mn is not None and mn >= need) or (s.value.id in lenguard)
             out.append((s, s.value.id, k, ok, mn))
     return out
+
+
+def x3_variable_sites(fn):
+    """[(Subscript node, seq name, largest index, nr_elements minimum)]: an index that is a local variable whose every
+    assignment in the function is an integer constant (`index = 5 ... index = 6 ... seq[index]`), on the result of
+    DerSequence().decode(..., nr_elements=...), where the proven minimum length does not cover the largest constant and
+    no len() test on the sequence exists."""
+    seqs = {}
+    for a in walk_no_nested(fn):
+        if isinstance(a, ast.Assign) and _is_derseq_decode(a.value) and isinstance(a.targets[0], ast.Name):
+            seqs[a.targets[0].id] = _nr_min(a.value)
+    if not seqs:
+        return []
+    consts = {}
+    for a in walk_no_nested(fn):
+        if isinstance(a, ast.Assign):
+            for t in a.targets:
+                if isinstance(t, ast.Name):
+                    if isinstance(a.value, ast.Constant) and isinstance(a.value.value, int) and not isinstance(a.value.value, bool):
+                        consts.setdefault(t.id, []).append(a.value.value)
+                    else:
+                        consts.setdefault(t.id, []).append(None)
+        elif isinstance(a, (ast.AugAssign, ast.For)) and isinstance(getattr(a, "target", None), ast.Name):
+            consts.setdefault(a.target.id, []).append(None)
+    lenguard = set()
+    for c in walk_no_nested(fn):
+        if isinstance(c, ast.Call) and getattr(c.func, "id", None) == "len" and c.args and isinstance(c.args[0], ast.Name):
+            lenguard.add(c.args[0].id)
+    out = []
+    for s in walk_no_nested(fn):
+        if isinstance(s, ast.Subscript) and isinstance(s.ctx, ast.Load) and isinstance(s.value, ast.Name) and s.value.id in seqs and \
+                isinstance(s.slice, ast.Name) and s.slice.id in consts and all(v is not None for v in consts[s.slice.id]):
+            mx = max(consts[s.slice.id])
+            mn = seqs[s.value.id]
+            if (mn is None or mn < mx + 1) and s.value.id not in lenguard:
+                out.append((s, s.value.id, mx, mn))
+    return out
